@@ -21,9 +21,11 @@ import (
 	"runtime"
 	"runtime/pprof"
 	"sort"
+	"strconv"
 	"strings"
 	"sync"
 	"sync/atomic"
+	"syscall"
 	"time"
 
 	"github.com/pingcap/failpoint"
@@ -403,7 +405,7 @@ func makeBounds(thorough bool) bounds {
 		wide.lives = append(append([]liveFwd{}, base.lives...), liveFwd{"s2-down", true}, liveFwd{"s2-down-known", false}, liveFwd{"all-down", false}, liveFwd{"all-down", true}, liveFwd{"leader-unknown", true}, liveFwd{"s3-down-known", false})
 		wide.slows = []string{"none", "s2", "leader"}
 		deep := base
-		deep.budgets = []int{20000, 2000, 10}
+		deep.budgets = []int{20000, 10}
 		b.parts = []*part{
 			{Name: "deep", F: 3, alphabet: core, configs: deep.product()},
 			{Name: "wide", F: 2, alphabet: all, configs: wide.product()},
@@ -425,6 +427,7 @@ type stats struct {
 	pruned                                             int64 // scripts not extended because the call had ended earlier
 	outcomes                                           map[string]int64
 	paths                                              map[uint64]struct{}
+	byPart                                             map[string]int64 // runs per part
 }
 
 type best struct {
@@ -480,6 +483,7 @@ type worker struct {
 	w  *world
 	st stats
 	// progress for the watchdog
+	part string
 	beat atomic.Int64
 	cur  atomic.Pointer[caseID]
 	idle atomic.Bool
@@ -523,6 +527,7 @@ func (wk *worker) one(id caseID) int {
 	}
 	n := len(r.attempts)
 	wk.st.runs++
+	wk.st.byPart[wk.part]++
 	wk.st.transitions += int64(n)
 	if int64(n) > wk.st.maxAttempts {
 		wk.st.maxAttempts = int64(n)
@@ -586,6 +591,15 @@ func (wk *worker) explore(pt *part, cfg config, prefix []answer) {
 	}
 }
 
+// processCPU returns the user+system CPU seconds consumed by this process.
+func processCPU() float64 {
+	var ru syscall.Rusage
+	if err := syscall.Getrusage(syscall.RUSAGE_SELF, &ru); err != nil {
+		return 0
+	}
+	return float64(ru.Utime.Sec+ru.Stime.Sec) + float64(ru.Utime.Usec+ru.Stime.Usec)/1e6
+}
+
 type job struct {
 	pt  *part
 	cfg config
@@ -617,7 +631,7 @@ func (x *explorer) phase(rnd int, jobs []job) {
 	done := make(chan struct{})
 	for i := range workers {
 		wk := &worker{x: x, w: newWorld()}
-		wk.st.outcomes, wk.st.paths = map[string]int64{}, map[uint64]struct{}{}
+		wk.st.outcomes, wk.st.paths, wk.st.byPart = map[string]int64{}, map[uint64]struct{}{}, map[string]int64{}
 		workers[i] = wk
 		wg.Add(1)
 		go func() {
@@ -628,15 +642,21 @@ func (x *explorer) phase(rnd int, jobs []job) {
 				if j >= len(jobs) || x.run.Expired() {
 					return
 				}
+				wk.part = jobs[j].pt.Name
 				wk.explore(jobs[j].pt, jobs[j].cfg, nil)
 			}
 		}()
 	}
-	// Watchdog for "never hangs": nothing in a run may block (back-off is virtual, the environment
-	// answers at once). A worker that makes no progress for a long wall-clock time is reported as a hang.
+	// Watchdog for "never hangs". Nothing in a run may block (back-off is virtual, the environment answers
+	// at once) and one run needs far less than a CPU-second. The watchdog measures CPU time of the process,
+	// not wall-clock time, so that an overloaded machine cannot trigger it: a worker that stays in the same
+	// run while the process burns 600 CPU-seconds is spinning; if no worker finishes a run for five minutes
+	// while the process uses next to no CPU, a call is blocked.
 	go func() {
 		last := make([]int64, nw)
-		stuck := make([]int, nw)
+		cpuAt := make([]float64, nw)
+		quiet := 0
+		quietCPU := processCPU()
 		t := time.NewTicker(5 * time.Second)
 		defer t.Stop()
 		for {
@@ -644,19 +664,31 @@ func (x *explorer) phase(rnd int, jobs []job) {
 			case <-done:
 				return
 			case <-t.C:
+				now := processCPU()
+				progressed := false
+				var suspect *worker
 				for i, wk := range workers {
 					b := wk.beat.Load()
-					if b == last[i] && wk.cur.Load() != nil && !wk.idle.Load() {
-						stuck[i]++
-					} else {
-						stuck[i] = 0
+					if b != last[i] || wk.idle.Load() || wk.cur.Load() == nil {
+						if b != last[i] {
+							progressed = true
+						}
+						last[i], cpuAt[i] = b, now
+						continue
 					}
-					last[i] = b
-					if stuck[i] >= 24 { // two minutes without finishing one run
-						id := wk.cur.Load()
-						x.run.Violation("hang", "a call did not return within two minutes of wall-clock time (virtual back-off, instant environment)", id)
+					suspect = wk
+					if now-cpuAt[i] > 600 {
+						x.run.Violation("hang", "a call did not return while the process consumed 600 CPU-seconds (virtual back-off, instant environment)", wk.cur.Load())
 						x.finish(true)
 					}
+				}
+				if progressed || suspect == nil || now-quietCPU > 0.5 {
+					quiet, quietCPU = 0, now
+					continue
+				}
+				if quiet++; quiet >= 60 {
+					x.run.Violation("hang", "a call is blocked: no run finished for five minutes and the process is idle (virtual back-off, instant environment)", suspect.cur.Load())
+					x.finish(true)
 				}
 			}
 		}
@@ -679,6 +711,9 @@ func (x *explorer) phase(rnd int, jobs []job) {
 		}
 		for k, v := range wk.st.outcomes {
 			x.total.outcomes[k] += v
+		}
+		for k, v := range wk.st.byPart {
+			x.total.byPart[k] += v
 		}
 		for k := range wk.st.paths {
 			x.total.paths[k] = struct{}{}
@@ -785,7 +820,7 @@ func (x *explorer) finish(early bool) {
 		}
 		nConfigs += len(pt.configs)
 		partInfo = append(partInfo, map[string]any{"part": pt.Name, "F": pt.F, "alphabet": names(pt.alphabet), "configurations": len(pt.configs),
-			"budgets_ms": budgetsOf(pt.configs), "scripts_x_tails_per_configuration_full_space": full})
+			"budgets_ms": budgetsOf(pt.configs), "scripts_x_tails_per_configuration_full_space": full, "runs_executed": x.total.byPart[pt.Name]})
 	}
 	cov := ev.Coverage{
 		"states":                        x.total.runs,
@@ -899,11 +934,19 @@ func main() {
 
 	run := ev.Start("C10", "model_checking")
 	x := &explorer{run: run, b: makeBounds(run.Thorough()), fastCap: fastCapOf(), samples: ev.NewSamples(6, run.Seed), viol: map[string]*best{}}
-	x.total.outcomes, x.total.paths = map[string]int64{}, map[uint64]struct{}{}
+	x.total.outcomes, x.total.paths, x.total.byPart = map[string]int64{}, map[uint64]struct{}{}, map[string]int64{}
+	stride := 1 // sizing aid only: VERIF_C10_STRIDE=k explores every k-th configuration (evidence says exhaustive:false)
+	if v, err := strconv.Atoi(os.Getenv("VERIF_C10_STRIDE")); err == nil && v > 1 {
+		stride = v
+		run.Incomplete(fmt.Sprintf("VERIF_C10_STRIDE=%d: only every %d-th configuration explored", v, v))
+	}
 	for rnd := 0; rnd < 2; rnd++ {
 		var jobs []job
 		for _, pt := range x.b.parts {
 			for _, c := range pt.configs {
+				if c.ord%stride != 0 {
+					continue
+				}
 				if c.Rnd == rnd {
 					jobs = append(jobs, job{pt, c})
 				}
